@@ -78,32 +78,32 @@ fn run_with<'i, I: Input<'i>, R: RuleType, N: ParsableTypedNode<'i, R> + Pairs<'
     match entry {
         "parse_partial" => match N::try_parse_partial_with(input, &mut stack, &mut tracker) {
             Some((next, node)) => format!(
-                "v=ok end={} stk={} trk={} tok={} dbg={}",
+                "v=ok\tend={}\tstk={}\ttrk={}\ttok={}\tdbg={}",
                 next.byte_offset(),
                 show_stack(&stack),
                 show_tracker(tracker),
                 show_tokens::<R, N>(&node),
                 hex(&format!("{:?}", node))
             ),
-            None => format!("v=fail stk={} trk={}", show_stack(&stack), show_tracker(tracker)),
+            None => format!("v=fail\tstk={}\ttrk={}", show_stack(&stack), show_tracker(tracker)),
         },
         "check_partial" => match N::try_check_partial_with(input, &mut stack, &mut tracker) {
-            Some(next) => format!("v=ok end={} stk={} trk={}", next.byte_offset(), show_stack(&stack), show_tracker(tracker)),
-            None => format!("v=fail stk={} trk={}", show_stack(&stack), show_tracker(tracker)),
+            Some(next) => format!("v=ok\tend={}\tstk={}\ttrk={}", next.byte_offset(), show_stack(&stack), show_tracker(tracker)),
+            None => format!("v=fail\tstk={}\ttrk={}", show_stack(&stack), show_tracker(tracker)),
         },
         "parse" => match N::try_parse_with(input, &mut stack, &mut tracker) {
             Some(node) => format!(
-                "v=ok stk={} trk={} tok={} dbg={}",
+                "v=ok\tstk={}\ttrk={}\ttok={}\tdbg={}",
                 show_stack(&stack),
                 show_tracker(tracker),
                 show_tokens::<R, N>(&node),
                 hex(&format!("{:?}", node))
             ),
-            None => format!("v=fail stk={} trk={}", show_stack(&stack), show_tracker(tracker)),
+            None => format!("v=fail\tstk={}\ttrk={}", show_stack(&stack), show_tracker(tracker)),
         },
         "check" => match N::try_check_with(input, &mut stack, &mut tracker) {
-            true => format!("v=ok stk={} trk={}", show_stack(&stack), show_tracker(tracker)),
-            false => format!("v=fail stk={} trk={}", show_stack(&stack), show_tracker(tracker)),
+            true => format!("v=ok\tstk={}\ttrk={}", show_stack(&stack), show_tracker(tracker)),
+            false => format!("v=fail\tstk={}\ttrk={}", show_stack(&stack), show_tracker(tracker)),
         },
         _ => "v=badentry".to_string(),
     }
@@ -157,7 +157,7 @@ pub fn run_pest<R: pest::RuleType, P: pest::Parser<R>>(rule: R, input: &str) -> 
                 show_pest_pair(p, &mut out);
             }
             out.push(']');
-            format!("ok:{}:{}", end, out.replace(' ', "_"))
+            format!("ok:{}:{}", end, out)
         }
         Err(_) => "fail".to_string(),
     }));
@@ -195,7 +195,7 @@ pub fn serve(dispatch: fn(&str, &str) -> Option<(CaseFn, Option<fn(&str) -> Stri
                         let typed = std::panic::catch_unwind(move || tf(&entry2, &form2, a, b, &input2))
                             .unwrap_or_else(|_| "v=panic".to_string());
                         match (pf, form, entry) {
-                            (Some(pf), "str", "parse_partial") => format!("{} pest={}", typed, pf(&input)),
+                            (Some(pf), "str", "parse_partial") => format!("{}\tpest={}", typed, pf(&input)),
                             _ => typed,
                         }
                     }
